@@ -1221,11 +1221,13 @@ func (sab *storageAllocationBase) replaceBlobber(blobberID string, sc *StorageSm
 
 			bb := blobber.mustBase()
 
+			var cp *challengePool
+			cpLoaded := false
 			if bb.IsKilled() || bb.IsShutDown() {
 				blobberIsKilled = true
 
-				var cp *challengePool
 				cp, e = sc.getChallengePool(sab.ID, balances)
+				cpLoaded = e == nil
 				if e != nil {
 					e = fmt.Errorf("could not get challenge pool of alloc: %s, err: %v", sab.ID, e)
 
@@ -1249,6 +1251,44 @@ func (sab *storageAllocationBase) replaceBlobber(blobberID string, sc *StorageSm
 			}
 
 			if blobberIsKilled {
+				// the tokens of the dead blobber went back to the write pool above
+				if cpLoaded {
+					if err := cp.save(sc.ID, sab, balances); err != nil {
+						return fmt.Errorf("failed to save challenge pool: %v", err)
+					}
+				}
+
+				// release what the dead blobber held for this allocation
+				sp, err := sc.getStakePool(spenum.Blobber, d.BlobberID, balances)
+				if err != nil {
+					return common.NewError("remove_blobber_failed",
+						"can't get stake pool of "+d.BlobberID+": "+err.Error())
+				}
+				offer := d.Offer()
+				if offer > sp.TotalOffers {
+					offer = sp.TotalOffers
+				}
+				if err := sp.reduceOffer(offer); err != nil {
+					return common.NewError("remove_blobber_failed",
+						"error removing offer: "+err.Error())
+				}
+				if err := sp.Save(spenum.Blobber, d.BlobberID, balances); err != nil {
+					return err
+				}
+
+				//nolint:errcheck
+				blobber.mustUpdateBase(func(b *storageNodeBase) error {
+					b.SavedData += -d.Stats.UsedSize
+					b.Allocated += -d.Size
+					return nil
+				})
+				if _, err := balances.InsertTrieNode(blobber.GetKey(), blobber); err != nil {
+					return common.NewError("remove_blobber_failed",
+						"saving blobber "+d.BlobberID+": "+err.Error())
+				}
+				emitUpdateBlobberAllocatedSavedHealth(blobber, balances)
+
+				sab.Stats.UsedSize += -d.Stats.UsedSize
 				sab.BlobberAllocs[i] = addedBlobberAllocation
 				sab.BlobberAllocsMap[addedBlobberAllocation.BlobberID] = addedBlobberAllocation
 				break
